@@ -4,7 +4,9 @@ Tie / oracle: generated C programs (executable + 1-2 shared libraries that excha
 compare the addresses and write through one view / read through the other), libraries built by wild AND by
 GNU ld, executable linked by wild with the explicit crt/libc file list gcc uses, PIE and non-PIE
 (`-fno-pic` objects force copy relocations and canonical PLT entries), IFUNCs with their address taken,
-weak aliases of copy-relocated data; run natively under glibc's loader: any mismatch makes the program exit
+weak aliases of copy-relocated data (executable names the weak alias, library the strong symbol) and alias sets where the executable names
+one symbol of the storage and only the library's own code names another (weak alias / strong alias / both; scalar in .data and array in
+.bss); run natively under glibc's loader: any mismatch makes the program exit
 non-zero and print which view disagrees.  The same program linked by GNU ld must exit 0 (validates the
 program and the oracle).
 """
@@ -36,10 +38,12 @@ TRUSTED = [
     "(undefined dynamic symbols are written with st_value 0); tied by native execution of generated programs and by reading the outputs' dynamic "
     "symbol tables and COPY relocations with vlib/elfread.py",
     "loader symbol search = first definition in load order exe -> libraries (glibc do_lookup_x, no versions / no RTLD_DEEPBIND / no protected data)",
-    "gcc 12 (compiler for the generated programs), GNU ld 2.40 (reference linker), glibc's loader (oracle)",
+    "gcc 12 (compiler for the generated programs), GNU ld 2.40 (reference linker; ld.lld 14 for the alias-set items), glibc's loader (oracle)",
 ]
 RULE = ("generated programs: exe mode {non-PIE -fno-pic, non-PIE -fPIE objects, PIE} x libraries built by {wild, GNU ld} x 1-2 libraries x shared items "
-        "{library function, library data (.data/.bss/.rodata), exe function, exe data, IFUNC in exe, IFUNC in library, weak alias of library data}; "
+        "{library function, library data (.data/.bss/.rodata), exe function, exe data, IFUNC in exe, IFUNC in library, weak alias of library data, alias sets of library data where exe and library use different names of one storage "
+        "(exe: strong symbol / library: weak alias, strong alias, or both; exe: strong alias / library: the symbol itself; reference for these items: ld.lld, "
+        "because GNU ld by design defines only the named symbol in the executable)}; "
         "all non-trivial; distinct by generated source text + mode + library linker")
 ASSUMPTIONS = ["x86-64 only (native execution)", "no symbol versioning / protected visibility / dlopen in the generated programs"]
 
@@ -57,6 +61,9 @@ def gen_program(r, idx):
         chosen.append("lalias")
     if idx % 5 == 2:
         chosen.append("lifunc")
+    # aliases of copy-relocated data where the executable names ONE symbol of the storage and only the library's own code names another
+    # (GNU ld keeps just the named symbol in the executable, so its link is not a usable reference for these: ld.lld is, see `ref`)
+    chosen += [["lalias_sw", "lalias_ts"], ["lalias_sw", "lalias_st"], ["lalias_st", "lalias_multi"], ["lalias_sw", "lalias_multi"], ["lalias_ts", "lalias_sw"]][idx % 5]
     seen = set()
     for k in chosen:
         if k in ("l2data", "l2func") and not two:
@@ -107,6 +114,24 @@ def gen_program(r, idx):
             checks.append(f"if ((void*)&{nm} != addr_{nm}()) fail(\"{nm}: weak alias in exe vs strong symbol in library\");")
             checks.append(f"write_{nm}({val + 7}); if ({nm} != {val + 7}) fail(\"{nm}: write through strong symbol not seen through alias\");")
             checks.append(f"{nm} = {val + 9}; if (read_{nm}() != {val + 9}) fail(\"{nm}: write through alias not seen through strong symbol\");")
+        elif k in ("lalias_sw", "lalias_st", "lalias_ts", "lalias_multi"):
+            # one storage, several names. e = the only name the executable mentions; rd / wr = the names the library's own code reads / writes through.
+            s_, w_, t_ = nm, f"w_{nm}", f"t_{nm}"
+            e, rd, wr = {"lalias_sw": (s_, w_, w_), "lalias_st": (s_, t_, t_), "lalias_ts": (t_, s_, s_), "lalias_multi": (s_, w_, t_)}[k]
+            arr = cnt > 2           # array in .bss / scalar in .data
+            lib1.append((f"int {s_}[{cnt}];" if arr else f"int {s_} = {val};") +
+                        (f" extern __typeof({s_}) {w_} __attribute__((weak, alias(\"{s_}\")));" if k in ("lalias_sw", "lalias_multi") else "") +
+                        (f" extern __typeof({s_}) {t_} __attribute__((alias(\"{s_}\")));" if k != "lalias_sw" else ""))
+            ix = "[0]" if arr else ""
+            amp = "" if arr else "&"
+            init = 0 if arr else val
+            lib1.append(f"void *addr_{nm}(void){{ return (void*){amp}{rd}; }} int read_{nm}(void){{ return {rd}{ix}; }} void write_{nm}(int v){{ {wr}{ix} = v; }}"
+                        f" void *waddr_{nm}(void){{ return (void*){amp}{wr}; }}")
+            main.append(f"extern int {e}{'[]' if arr else ''}; extern void *addr_{nm}(void); extern void *waddr_{nm}(void); extern int read_{nm}(void); extern void write_{nm}(int);")
+            checks.append(f"if ((void*){amp}{e} != addr_{nm}() || (void*){amp}{e} != waddr_{nm}()) fail(\"{nm}: symbol in exe vs its alias used by the library\");")
+            checks.append(f"if ({e}{ix} != {init} || read_{nm}() != {init}) fail(\"{nm}: initial value\");")
+            checks.append(f"{e}{ix} = {val + 1000}; if (read_{nm}() != {val + 1000}) fail(\"{nm}: write in exe not seen by the library through the alias\");")
+            checks.append(f"write_{nm}({val + 7}); if ({e}{ix} != {val + 7}) fail(\"{nm}: write by the library through the alias not seen in exe\");")
         elif k == "efunc":
             main.append(f"int {nm}(void){{ return {val}; }} extern void *l1_addr_{nm}(void); extern int l1_call_{nm}(void);")
             lib1.append(f"extern int {nm}(void); void *l1_addr_{nm}(void){{ return (void*){nm}; }} int l1_call_{nm}(void){{ return {nm}(); }}")
@@ -138,7 +163,7 @@ def gen_program(r, idx):
     main += ["    " + c for c in checks]
     main.append("    if (!bad) printf(\"OK\\n\"); return bad ? 1 : 0; }")
     return {"main": "\n".join(main) + "\n", "lib1": "\n".join(lib1) + "\n", "lib2": ("\n".join(lib2) + "\n") if two else None,
-            "items": items}
+            "items": items, "ref": "lld" if any(it[0] in ALIAS_KINDS for it in items) else "ld"}
 
 
 MODES = [("nopic", "dyn", ["-fno-pic", "-fno-pie", "-O1"]), ("pieobj-nopie", "dyn", ["-fPIE", "-O1"]), ("pie", "pie", ["-fPIE", "-O1"]),
@@ -177,6 +202,25 @@ def build_and_run(ctx, d, prog, mode, liblinker, exelinker):
     return "crash", f"rc={rc} {out[-300:]} {err[-300:]}"
 
 
+ALIAS_KINDS = ("lalias_sw", "lalias_st", "lalias_ts", "lalias_multi")
+
+
+def reference(ctx, dref, prog, mode, i):
+    """The same program with everything linked by GNU ld.  GNU ld 2.40 gives a copy-relocated object only the name the executable mentions (plus the strong
+    symbol behind a weak one), so the alias items of ALIAS_KINDS mismatch in its link by design; those items are validated with ld.lld (which, like wild,
+    defines every alias of the storage in the executable) and their lines are dropped from GNU ld's output."""
+    rst, rout = build_and_run(ctx, dref, prog, mode, "ld", "ld")
+    if prog["ref"] != "lld" or rst != "mismatch":
+        return rst, rout
+    lst, lout = build_and_run(ctx, dref + "-lld", prog, mode, "lld", "lld")
+    ctx.count("reference-lld", lst)
+    if lst not in ("ok", "mismatch") or any(k in ALIAS_KINDS for (k, _) in classify(lout)):
+        ctx.broken.append(f"generated program {i} ({mode[0]}): alias items fail with ld.lld too: {lst} {lout[:200]}")
+    shutil.rmtree(dref + "-lld", ignore_errors=True)
+    kept = [l for l in rout.split("\n") if not (l.startswith("MISMATCH") and l[len("MISMATCH "):].split(":")[0].rsplit("_", 1)[0] in ALIAS_KINDS)]
+    return ("mismatch" if any(l.startswith("MISMATCH") for l in kept) else "ok"), "\n".join(kept)
+
+
 def classify(out):
     """mismatch lines -> set of finding keys"""
     keys = set()
@@ -184,8 +228,7 @@ def classify(out):
         if not l.startswith("MISMATCH"):
             continue
         what = l[len("MISMATCH "):]
-        kind = what.split("_")[0] + ("_" + what.split("_")[1] if what.split("_")[1] in ("bss", "ro") else "")
-        kind = kind.strip()
+        kind = what.split(":")[0].rsplit("_", 1)[0].strip()
         keys.add((kind, what.split(": ", 1)[1] if ": " in what else what))
     return keys
 
@@ -217,7 +260,7 @@ def run(ctx):
                     continue
                 # reference: the same program with everything linked by GNU ld
                 dref = d + "-ref"
-                rst, rout = build_and_run(ctx, dref, prog, mode, "ld", "ld")
+                rst, rout = reference(ctx, dref, prog, mode, i)
                 ctx.count("reference", rst)
                 ref_keys = classify(rout) if rst == "mismatch" else set()
                 ifunc_pie_only = rst == "mismatch" and mode[1] == "pie" and all(k in ("eifunc", "lifunc") for (k, _) in ref_keys)
